@@ -125,6 +125,8 @@ class Run:
         self.input_types = {}
         self.decided = {}
         self.decided_persist = {}
+        self.guard_depth = 0
+        self.nopersist = 0
         self.persistent = []   # constraints about input symbols that must survive the pop of a guarded (spec) region
         self._keep = []
         self.written = set()
@@ -182,6 +184,10 @@ class Run:
         """options: list of (tag, cond or None). Returns index of the option taken on this path."""
         conds = [z3.BoolVal(True) if c is None else simp(c) for _t, c in options]
         pos = len(self.log)
+        if self.guard_depth > 0 and not self.nopersist:
+            # a decision taken while evaluating a guarded specification sub-expression holds for the whole path (both
+            # evaluations of an invariant must agree); alternatives are explored regardless of the guard
+            persist = True
         if pos < len(self.forced):
             k, feas = self.forced[pos]
         else:
@@ -189,6 +195,8 @@ class Run:
             k = next((i for i, f in enumerate(feas) if f), None)
             if k is None:
                 raise PathEnd()
+            if self.guard_depth > 0 and not self.nopersist:
+                feas = [not is_false(c) for c in conds]
         self.log.append([len(options), k, feas, label])
         self.trace.append(f"{label}={options[k][0]}")
         self.assume(conds[k], persist)
